@@ -18,6 +18,7 @@ type COp struct {
 	Off uint32 `json:"off,omitempty"`
 	Typ uint16 `json:"typ,omitempty"`
 	D   int64  `json:"d,omitempty"`
+	Dup bool   `json:"dup,omitempty"` // PushMessage: the message equals, in every field, the one of the same task's previous PushMessage with this offset and type (another object)
 }
 
 // CRe is a re-entrant action: the N-th ReassemblyComplete callback of the run
@@ -130,6 +131,11 @@ func GenCPlan(r *core.Rng) *CPlan {
 					k, typ = opPushBad, uint16(r.Intn(5))
 				}
 				ops = append(ops, COp{K: k, Off: uint32(r.Intn(noffs)), Typ: typ})
+				if k == opPushMsg && r.Chance(1, 12) && len(ops) < 38 {
+					d := ops[len(ops)-1]
+					d.Dup = true
+					ops = append(ops, d)
+				}
 			case 1:
 				ops = append(ops, COp{K: opMaintain})
 			case 2:
@@ -232,9 +238,17 @@ type cStream struct {
 	start time.Time
 }
 
+// msgIDs maps the message objects handed to PushMessage in the current run to
+// their ids (two objects may be equal in every field). It is filled before the
+// tasks exist and only read afterwards.
+var msgIDs map[*auparse.AuditMessage]int
+
 func msgID(m *auparse.AuditMessage) int {
 	if m == nil {
 		return -1
+	}
+	if id, ok := msgIDs[m]; ok {
+		return id
 	}
 	return parseID(m.RawData)
 }
@@ -349,15 +363,27 @@ func ExecCPlan(p *CPlan, trace bool) *core.Result {
 		return res
 	}
 	// pre-create every message before the tasks are forked.
+	ids := map[*auparse.AuditMessage]int{}
 	msgs := make([][]*auparse.AuditMessage, len(p.Tasks))
 	for ti, ops := range p.Tasks {
 		msgs[ti] = make([]*auparse.AuditMessage, len(ops))
 		for oi, op := range ops {
 			if op.K == opPushMsg {
 				msgs[ti][oi] = &auparse.AuditMessage{RecordType: auparse.AuditMessageType(op.Typ), Sequence: p.Base + op.Off, RawData: "id=" + strconv.Itoa(ti*100+oi)}
+				if op.Dup {
+					for pj := oi - 1; pj >= 0; pj-- {
+						if q := ops[pj]; q.K == opPushMsg && q.Off == op.Off && q.Typ == op.Typ {
+							c := *msgs[ti][pj] // equal in every field, another object
+							msgs[ti][oi] = &c
+							break
+						}
+					}
+				}
+				ids[msgs[ti][oi]] = ti*100 + oi
 			}
 		}
 	}
+	setMsgIDs(ids)
 	for ti := range p.Tasks {
 		ti := ti
 		ops := p.Tasks[ti]
